@@ -128,8 +128,7 @@ Fixpoint trim_seam (fuel : nat) (dst : path) : res path :=
 Definition trim_collinear (p : path) (is_open : bool) : res path :=
   let len := length p in
   if len <? 3 then
-    if negb is_open || (len <? 2) then Ok []
-    else a <- rd p 0 ;; b <- rd p 1 ;; if pt_eqb a b then Ok [] else Ok p
+    if negb is_open || (len <? 2) then Ok [] else Ok p
   else
     let stop0 := len - 1 in
     ss <- (if negb is_open then
@@ -294,7 +293,7 @@ Section Generic.
                dist <- upd dist 0 dmax ;; upd dist high dmax) ;;
     simp_init_mid (high - 1) 1 p dist.
 
-  (* the flags at the end of SimplifyPath (len >= 4) *)
+  (* the flags at the end of SimplifyPath (len >= 3) *)
   Definition simp_flags (p : path) (epsSqr : D) (closed : bool) : res (list bool) :=
     let len := length p in
     dist <- simp_init p closed ;;
@@ -302,21 +301,20 @@ Section Generic.
 
   Definition simplify_gen (p : path) (epsSqr : D) (closed : bool) : res path :=
     let len := length p in
-    if len <? 4 then Ok p else
+    if len <? 3 then Ok p else
     flags <- simp_flags p epsSqr closed ;;
     collect false len 0 p flags.
 
   (* ---- RDP ---- *)
-  (* while (end > begin && path[begin] == path[end]) flags[end--] = false; *)
-  Fixpoint rdp_unflag (fuel : nat) (p : path) (begin end_ : nat) (flags : list bool) : res (nat * list bool) :=
+  (* while (end > begin && path[begin] == path[end]) --end; *)
+  Fixpoint rdp_shrink (fuel : nat) (p : path) (begin end_ : nat) : res nat :=
     match fuel with
     | O => ErrFuel
     | S f =>
       if begin <? end_ then
         a <- rd p begin ;; b <- rd p end_ ;;
-        if pt_eqb a b then flags <- upd flags end_ false ;; rdp_unflag f p begin (end_ - 1) flags
-        else Ok (end_, flags)
-      else Ok (end_, flags)
+        if pt_eqb a b then rdp_shrink f p begin (end_ - 1) else Ok end_
+      else Ok end_
     end.
 
   (* for (i = begin + 1; i < end; ++i) { d = PerpendicDistFromLineSqrd(path[i], path[begin], path[end]);
@@ -335,8 +333,8 @@ Section Generic.
     match fuel with
     | O => ErrFuel
     | S f =>
-      ef <- rdp_unflag (S (length p)) p begin end_ flags ;;
-      let '(end_, flags) := ef in
+      end_ <- rdp_shrink (S (length p)) p begin end_ ;;
+      flags <- upd flags end_ true ;;                                  (* flags[end] = true; *)
       im <- rdp_scan (end_ - (begin + 1)) (begin + 1) p begin end_ 0 dzero ;;
       let '(idx, max_d) := im in
       if leD max_d epsSqr then Ok flags else
@@ -364,8 +362,13 @@ Arguments Continue {D}.
 Arguments Break {D}.
 
 (* instantiation with the code's own binary64 functions; Sqr(epsilon) = epsilon * epsilon *)
+(* const double epsSqr = (std::min)(Sqr(epsilon), MAX_DBL * 0.5);     std::min(a, b) = (b < a) ? b : a *)
+Definition HALF_MAX_DBL : float := (MAX_DBL * 0.5)%float.
+Definition simp_eps_sqr (epsilon : float) : float :=
+  if (HALF_MAX_DBL <? fsqr epsilon)%float then HALF_MAX_DBL else fsqr epsilon.
+
 Definition simplify_path (p : path) (epsilon : float) (closed : bool) : res path :=
-  simplify_gen float perp_d2 PrimFloat.ltb MAX_DBL 0%float p (fsqr epsilon) closed.
+  simplify_gen float perp_d2 PrimFloat.ltb MAX_DBL 0%float p (simp_eps_sqr epsilon) closed.
 
 Definition rdp_path_flags (p : path) (epsilon : float) : res (list bool) :=
   if length p <? 5 then Ok (repeat true (length p))
@@ -633,3 +636,15 @@ Proof. vm_compute. reflexivity. Qed.
 Example rdp_ex :
   rdp_path [(0,0);(5,1);(10,0);(15,7);(20,0)]%Z 2%float = Ok [(0,0);(10,0);(15,7);(20,0)]%Z.
 Proof. vm_compute. reflexivity. Qed.
+(* a path that ends where it starts: the chord runs to the last vertex that differs from the first; both are kept *)
+Example rdp_ex_ring :
+  rdp_path [(0,0);(10,10);(20,0);(30,10);(40,0);(0,0);(0,0)]%Z 1%float = Ok [(0,0);(10,10);(20,0);(30,10);(40,0);(0,0)]%Z.
+Proof. vm_compute. reflexivity. Qed.
+Example simplify_ex_short :
+  simplify_path [(0,0);(5,1);(10,0)]%Z 2%float false = Ok [(0,0);(10,0)]%Z.
+Proof. vm_compute. reflexivity. Qed.
+Example simplify_ex_huge_eps :
+  simplify_path [(0,0);(1,5);(2,-5);(3,0);(3,0)]%Z 0x1p+664%float false = Ok [(0,0);(3,0)]%Z.
+Proof. vm_compute. reflexivity. Qed.
+Example trim_ex4 : trim_collinear [(0,0);(0,0)]%Z true = Ok [(0,0);(0,0)]%Z.
+Proof. reflexivity. Qed.
